@@ -49,6 +49,11 @@ def matrix(tier):
         tus.append(("algorithm selector header, %s" % label,
                     {"name": "h_selecter_" + "_".join(d[10:].lower() for d in defs) if defs else "h_selecter_none",
                      "sources": ["h_selecter.cpp", "mock_starpu.cpp", "mock_gomp.cpp"], "flags": ["-fopenmp", inc, inc2] + defs}, "selecter"))
+    # float coordinates with every executor (sequential, OpenMP, StarPU and Specx under the mocks)
+    for D in (1, 2, 3, 4):
+        sp = core.harness_spec(D, D % 2, omp=True, starpu=True)
+        sp = {"name": sp["name"] + "_f32", "sources": sp["sources"], "flags": sp["flags"] + ["-DCOREREAL=float"]}
+        tus.append(("executors with float coordinates D=%d periodic=%d" % (D, D % 2), sp, ("f32", D, D % 2)))
     # the Hilbert ordering as a configuration: trees of heights 2..6, counting kernel (header consistency, every particle N-1)
     tus.append(("Hilbert ordering (3-D), tree construction and sequential executor", {"name": "h_hilbert_fmm", "sources": ["h_hilbert_fmm.cpp"], "flags": []}, "selecter"))
     return tus
@@ -83,7 +88,25 @@ def run(rep, tier, seed, replay, proof_ok, proof_msg):
             elif rc != 0 or "bad=0" not in so:
                 rep.violation("C19:selector:" + label, "# %s\n# stdout: %s\n# stderr: %s\n" % (label, so.strip()[:300], se.strip()[:2000].replace("\n", "\n# ")), True,
                               "configuration '%s': the selected executors do not deliver the exactly-once result (exit %d, %s)" % (label, rc, so.strip()[:120]))
-    binaries = {cfg: path for _, _, cfg, path in compiled if cfg is not None and cfg != "selecter"}
+    binaries = {cfg: path for _, _, cfg, path in compiled if cfg is not None and cfg != "selecter" and cfg[0] != "f32"}
+    fbin32 = {(cfg[1], cfg[2]): path for _, _, cfg, path in compiled if cfg is not None and cfg != "selecter" and cfg[0] == "f32"}
+    if fbin32:
+        # the same exactly-once correspondence with float coordinates (heights whose cell centres are exact in float), all executors
+        fc = [c for c in C01.gen_cases("quick", seed + 11, sorted(fbin32), n=(12 if tier == "quick" else 200) * len(fbin32), tag="C19f32") if c["H"] <= 8]
+        for c in fc:
+            ex = ["exec seq", "exec omp sched=2 seed=5 workers=4", "exec starpu sched=1 seed=7 workers=3", "exec specx sched=3 seed=9 workers=2"][int(c["name"].split("-")[-1]) % 4]
+            c["lines"] = [ln.replace("exec seq", ex, 1) if ln.startswith("exec seq") else ln for ln in c["lines"]]
+        for r in core.run_cases(fc, fbin32):
+            if r.crash is not None:
+                rep.violation("crash:" + corefam.crash_signature(r.crash), "# float coordinates\n# " + r.crash.replace("\n", "\n# ") + "\n" + "\n".join(r.case["lines"]) + "\n", True,
+                              "library aborted on case %s (float coordinates)" % r.case["name"])
+                continue
+            if r.cpp is None or r.lean is None:
+                continue
+            corr, orc = C01.evaluate(r)
+            for sig, msg in orc:
+                rep.violation("C19:f32:" + sig, "# float coordinates: %s\n%s\n" % (msg, "\n".join(r.case["lines"])), True, "case %s (float coordinates): %s" % (r.case["name"], msg))
+        rep.cov["float_coordinate_executor_cases"] = len(fc)
     n_eval = 0
     if binaries:
         cases = C01.gen_cases("quick", seed, sorted(binaries), n=(30 if tier == "quick" else 400) * len(binaries), tag="C19")
